@@ -97,9 +97,10 @@ KEPT = 'sect_kept(old(self.sectitems), self._basic_key, type_, name, 0)'
 CBS = 'bag_split(%s, val(sectiontype).keytype, 0, {}, [])' % TAKEN
 contract('cmdline.OptionBag.get_section_info',
          params={'type_': 'str', 'name': 'Opt[str]'}, returns='Opt[Ref[cmdline.OptionBag]]',
-         requires=[Clause('type_.lower() in self.schema._types.items and '
-                          "isa(self.schema._types.items[type_.lower()], 'info.SectionType')",
-                          label='type-known-to-the-schema-the-options-were-cooked-with')],
+         requires=[Clause('implies(len(sect_taken(self.sectitems, self._basic_key, type_, name, 0)) > 0, '
+                          'type_.lower() in self.schema._types.items and '
+                          "isa(self.schema._types.items[type_.lower()], 'info.SectionType'))",
+                          label='type-of-an-ADDRESSED-section-known-to-the-schema-the-options-were-cooked-with')],
          modifies=['self.sectitems'], fresh_result=True,
          ensures=[Clause('(result is None) == (len(%s) == 0)' % TAKEN, carries='C14', label='none-iff-nothing-addressed'),
                   Clause('implies(result is None, self.sectitems == old(self.sectitems))', carries='C14',
@@ -195,8 +196,9 @@ CT = "sect_taken(old(self.optionbag.sectitems), self.optionbag._basic_key, val(t
 CK = "sect_kept(old(self.optionbag.sectitems), self.optionbag._basic_key, val(type_.name), name, 0)"
 contract('cmdline.MatcherMixin.createChildMatcher', params=dict(_bc.params), returns=_bc.returns,
          requires=list(_bc.requires) + [
-             Clause("val(type_.name).lower() in self.optionbag.schema._types.items and "
-                    "self.optionbag.schema._types.items[val(type_.name).lower()] == type_",
+             Clause("implies(len(sect_taken(self.optionbag.sectitems, self.optionbag._basic_key, val(type_.name), name, 0)) > 0, "
+                    "val(type_.name).lower() in self.optionbag.schema._types.items and "
+                    "self.optionbag.schema._types.items[val(type_.name).lower()] == type_)",
                     carries='C14', label='type-known-to-the-schema-the-options-were-cooked-with')],
          inst=list(_bc.inst), fresh_result=True, modifies=['self.optionbag.sectitems'],
          ensures=list(_bc.ensures) + [
